@@ -632,6 +632,75 @@ def searchCollFilteredOld (st : State) (c : String) (q : List Int) (k : Nat) (f 
     | .post => searchCoreOld x (cfgMetric st c) q (some f) (oversampleK k os) k
     | _ => .ranked .cosine (rank .cosine ((candidates x.items .cosine q (some f)).filter (·.pass))) k k
 
+/-! ### the Auto strategy of `search_filtered_in_collection` with the store scan made explicit
+
+  `store.scan(prefix)` returns the collection's keys in an order the engine does not control
+  (hash order).  The Auto arm looks at the first `min 100 n` of them; the pre-filter arm then
+  scans the prefix AGAIN and walks every key.  `scan` below is the key list of the first scan,
+  any list at all; `cap` is the sample size (the code: `sampleCap`). -/
+
+/-- `100.min(keys.len())` -/
+def sampleCap : Nat := 100
+
+/-- the decision of the Auto arm (lib.rs:1743-1776) on the key list `scan`:
+    `sample_size = min cap scan.length`, `matches` = sampled keys whose current entry satisfies the
+    filter (`store.get(k).map(evaluate_filter).unwrap_or(false)`), pre-filter iff
+    `matches / sample_size < 0.1` (f32; on these ranges ⇔ `10·matches < sample_size`) -/
+def autoStrategyOn (cap : Nat) (items : Items) (scan : List String) (f : Filter) : Strategy :=
+  let n := min cap scan.length
+  if n = 0 then .post
+  else
+    let hits := ((scan.take n).filter fun key =>
+      match alGet items key with
+      | some it => evalFilter it.md f
+      | none => false).length
+    if 10 * hits < n then .pre else .post
+
+/-- `search_filtered_in_collection` (lib.rs:1699-1833) as a function of the key list `scan` its
+    selectivity estimate saw.  Only the DECISION reads `scan`; the pre-filter arm walks a fresh
+    scan of the prefix, i.e. every stored item of the collection. -/
+def searchCollFilteredOn (cap : Nat) (scan : List String) (st : State) (c : String) (q : List Int)
+    (k : Nat) (f : Filter) (strat : Strategy) (os : Nat) : SearchOut :=
+  if q.isEmpty then .err .emptyVector
+  else if k = 0 then .err .invalidTopK
+  else if !cfgDimOk st c q then .err .dimMismatch
+  else if normSq q = 0 && cfgMetric st c == .cosine then .zeroQuery
+  else
+    let x := collOf st c
+    let m := cfgMetric st c
+    let s := match strat with
+      | .auto => autoStrategyOn cap x.items scan f
+      | other => other
+    match s with
+    | .post => searchCore x m q (some f) (oversampleK k os) k
+    | _ => .ranked m (rank m ((candidates x.items m q (some f)).filter (·.pass))) k k
+
+/-- the items a key list names, in that order (what walking `scan` with `store.get` sees) -/
+def itemsOfKeys (items : Items) (keys : List String) : Items :=
+  keys.filterMap fun key => (alGet items key).map fun it => (key, it)
+
+/-- VARIANT (not the code): the key list of the estimate is truncated to the sample and the
+    pre-filter arm chosen by Auto reuses it instead of scanning the prefix again — it scores the
+    sampled keys only.  Explicit strategies and Auto choosing post-filter are as in the code. -/
+def searchCollFilteredPreFilterOnSampleOnly (cap : Nat) (scan : List String) (st : State) (c : String)
+    (q : List Int) (k : Nat) (f : Filter) (strat : Strategy) (os : Nat) : SearchOut :=
+  if q.isEmpty then .err .emptyVector
+  else if k = 0 then .err .invalidTopK
+  else if !cfgDimOk st c q then .err .dimMismatch
+  else if normSq q = 0 && cfgMetric st c == .cosine then .zeroQuery
+  else
+    let x := collOf st c
+    let m := cfgMetric st c
+    match strat with
+    | .post => searchCore x m q (some f) (oversampleK k os) k
+    | .pre => .ranked m (rank m ((candidates x.items m q (some f)).filter (·.pass))) k k
+    | .auto =>
+      match autoStrategyOn cap x.items scan f with
+      | .post => searchCore x m q (some f) (oversampleK k os) k
+      | _ =>
+        let sampled := itemsOfKeys x.items (scan.take (min cap scan.length))
+        .ranked m (rank m ((candidates sampled m q (some f)).filter (·.pass))) k k
+
 /-- The engine's post-processing of what `index.search(query, k)` returned (lib.rs:1981-1998):
     node ids are mapped through the key list (`filter_map(mapping.get(idx))`), sorted by score,
     truncated.  `ann` = the raw `(node id, score)` pairs, whatever the index produced. -/
